@@ -1,119 +1,178 @@
-"""C08 — sidecar validation is total and flags each structural fault."""
+"""C08 — sidecar validation is total and flags each structural fault.
+
+Documents are built inside the harness from a few symbolic scalars plus small integer 'shape selectors'
+(value kinds), so that every counterexample is a call with literal arguments.  JSON decoding is stubbed
+(vp/sidecar_stub.py); everything from `Sidecar.__init__` on is hed-python's own code.
+"""
+import os
+
 from vp import reg as R
-from vp import chx_hash, sidecar_stub
+from vp import chx, chx_hash, sidecar_stub, astpatch
 from vp.mini import MINI
+from vp.stubs import NOSCHEMA
 from models import sidecar_ref as M
-from hed.models.sidecar import Sidecar
 from hed.models.column_metadata import ColumnMetadata, ColumnType
+from hed.models.hed_string import HedString
 from hed.validator.sidecar_validator import SidecarValidator
 from hed.errors.error_reporter import ErrorHandler
 
+astpatch.is_to_eq(HedString, "split_into_groups")   # `is '('` -> `== '('` (see vp/astpatch.py), for pound_count
+chx.install()               # ASCII-exact casefold/lower model (pound_count carries pre: ascii_printable)
 chx_hash.install()          # builtin hash() without CrossHair's short-circuit fork (see vp/chx_hash.py)
 _SV = SidecarValidator(MINI)
+_SV0 = SidecarValidator(NOSCHEMA)
 
-_HARDWIRE_KNOWN = False      # while developing: exclusions active without known_findings.json
+_HARDWIRE_KNOWN = True      # while developing: exclusions active without known_findings.json
 
 
-def _known(fid, verdict):
-    if _HARDWIRE_KNOWN:
-        return bool(verdict)
-    return R.known(fid, verdict)
+def _active(fid):
+    return True if _HARDWIRE_KNOWN else R.known_active(fid)
 
 
 # ------------------------------------------------------------------ JSON values from shape selectors
 # value kinds: 0 null, 1 false, 2 true, 3 number i, 4 string s, 5 [], 6 [child], 7 {}, 8 {key: child},
 #              9 {key: child, "z": child}
 _HAS_CHILD = (6, 8, 9)
+_S_ALPHABET = "{}a#"
+_KEY_ALPHABET = "ab"
 
 
-def _val(sel, s, i, key, child):
-    if sel == 0:
-        return None
-    if sel == 1:
-        return False
-    if sel == 2:
-        return True
-    if sel == 3:
-        return i
-    if sel == 4:
+class _OutOfBound(Exception):
+    pass
+
+
+class _Build:
+    """Builds the document top-down and lazily: a selector / string / number is only inspected (and only then
+    constrained to its bound) when the kinds chosen above it actually use it, so that documents which do not
+    use an argument are one path, not one path per value of the unused argument.  _OutOfBound is raised as
+    soon as a *used* argument is outside its bound or cell (the precondition then rejects the call) -- before
+    the value can be hashed as a dict key, which would realise it.
+
+    Bounds (env): VP_N max len of s (default 2), VP_M max len of the column name (default 1), VP_SALPHA
+    alphabet of s ("any" = unrestricted), VP_KALPHA alphabet of `key` and `name` (default "ab"), VP_KTOP / VP_KE / VP_KV / VP_KW the admissible kinds (a string of
+    digits) of the top-level value, entry, HED-level value and category-level value in this cell.
+    `early` = finding classes rejected as soon as the kinds decide them (same verdict as the predicate on the
+    finished document, evaluated before the deeper levels are enumerated).
+    """
+
+    def __init__(self, name_hed, name, k1_hed, k2_na, key, s, i, e, v, w, early=()):
+        self.name_hed, self.name, self.k1_hed, self.k2_na = name_hed, name, k1_hed, k2_na
+        self.key, self.s, self.i, self.e, self.v, self.w = key, s, i, e, v, w
+        self.early = early
+
+    def string(self):
+        s = self.s
+        if not len(s) <= R.N(2):
+            raise _OutOfBound()
+        if not R.scell(s, _S_ALPHABET):
+            raise _OutOfBound()
+        alpha = os.environ.get("VP_SALPHA", _S_ALPHABET)
+        if alpha != "any" and not R.over(s, alpha):
+            raise _OutOfBound()
         return s
-    if sel == 5:
-        return []
-    if sel == 6:
-        return [child]
-    if sel == 7:
-        return {}
-    if sel == 8:
-        return {key: child}
-    return {key: child, "z": child}
 
+    def number(self):
+        if not (-1 <= self.i <= 1):
+            raise _OutOfBound()
+        return self.i
 
-def _doc(top, nk, name, e, k1, v, k2, w, key, s, i):
-    """JSON document to depth 3: top-level value (kind `top`) holding entry E (kind `e`) under the column
-    name ("HED" if nk == 0 else `name`), holding V (kind `v`) under "HED" (k1 == 0) or `key`, holding W
-    (kind `w`) under "n/a" (k2 == 0) or `key`; W's own child is the string s under key "q"."""
-    W = _val(w, s, i, "q", s)
-    V = _val(v, s, i, "n/a" if k2 == 0 else key, W)
-    E = _val(e, s, i, "HED" if k1 == 0 else key, V)
-    return _val(top, s, i, "HED" if nk == 0 else name, E)
+    def keystr(self):
+        k = self.key
+        if not (len(k) <= 1 and R.over(k, os.environ.get("VP_KALPHA", _KEY_ALPHABET))):
+            raise _OutOfBound()
+        return k
 
+    def colname(self):
+        if self.name_hed:
+            return "HED"
+        n = self.name
+        if not (1 <= len(n) <= R.M(1) and R.over(n, os.environ.get("VP_KALPHA", _KEY_ALPHABET))):
+            raise _OutOfBound()
+        return n
 
-def _sel_ok(*sels):
-    for x in sels:
-        if not (0 <= x <= 9):
+    def val(self, sel, allowed, key_fn, child_fn):
+        ok = False
+        for ch in allowed:
+            if sel == int(ch):
+                ok = True
+        if not ok:
+            raise _OutOfBound()
+        if sel == 0:
+            return None
+        if sel == 1:
             return False
-    return True
+        if sel == 2:
+            return True
+        if sel == 3:
+            return self.number()
+        if sel == 4:
+            return self.string()
+        if sel == 5:
+            return []
+        if sel == 7:
+            return {}
+        c = child_fn()
+        if sel == 6:
+            return [c]
+        if sel == 8:
+            return {key_fn(): c}
+        return {key_fn(): c, "z": c}
+
+    def W(self):
+        return self.val(self.w, os.environ.get("VP_KW", "0123456789"), lambda: "q", self.string)
+
+    def V(self):
+        return self.val(self.v, os.environ.get("VP_KV", "0123456789"),
+                        lambda: "n/a" if self.k2_na else self.keystr(), self.W)
+
+    def E(self):
+        if "entry" in self.early and not (self.e == 7 or self.e == 8 or self.e == 9):
+            raise _OutOfBound()
+        return self.val(self.e, os.environ.get("VP_KE", "0123456789"),
+                        lambda: "HED" if self.k1_hed else self.keystr(), self.V)
+
+    def E_under_array(self):
+        # a top-level array holds one entry whose own children are scalars or empty containers
+        return self.val(self.e, os.environ.get("VP_KE", "0123456789"),
+                        lambda: "HED" if self.k1_hed else self.keystr(),
+                        lambda: self.val(self.v, "0123457", None, None))
+
+    def doc(self, top):
+        if "top" in self.early and not (top == 7 or top == 8 or top == 9):
+            raise _OutOfBound()
+        if top == 6:
+            return self.val(top, os.environ.get("VP_KTOP", "0123456789"), None, self.E_under_array)
+        return self.val(top, os.environ.get("VP_KTOP", "0123456789"), self.colname, self.E)
 
 
-def _cell(top, e, v):
-    t = R.env_int("VP_TOP")
-    if t is not None and top != t:
-        return False
-    t = R.env_int("VP_E")
-    if t is not None and e != t:
-        return False
-    t = R.env_int("VP_V")
-    if t is not None and v != t:
-        return False
-    return True
+def _doc(top, name_hed, name, e, k1_hed, v, k2_na, w, key, s, i, early=()):
+    """JSON document to depth 3: top-level value (kind `top`) holding entry E (kind `e`) under the column
+    name ("HED" if name_hed else `name`), holding V (kind `v`) under "HED" (k1_hed) or `key`, holding W
+    (kind `w`) under "n/a" (k2_na) or `key`; W's own child is the string s under key "q".
+    Returns (document, every used argument is inside its bound and cell)."""
+    b = _Build(name_hed, name, k1_hed, k2_na, key, s, i, e, v, w, early)
+    try:
+        return b.doc(top), True
+    except _OutOfBound:
+        return None, False
 
 
-def _doc_cells(split_v_for=()):
-    """disjoint cover of (top, e, v) in [0,9]^3 up to unused selectors: tops without a child are one cell
-    each; tops with a child are split by e; (top, e) pairs in split_v_for are split further by v."""
-    cells = []
-    for top in range(10):
-        if top not in _HAS_CHILD:
-            cells.append({"VP_TOP": top})
-            continue
-        for e in range(10):
-            if (top, e) in split_v_for:
-                for v in range(10):
-                    cells.append({"VP_TOP": top, "VP_E": e, "VP_V": v})
-            else:
-                cells.append({"VP_TOP": top, "VP_E": e})
-    return cells
+def _kinds(**kw):
+    return dict(kw)
 
 
 # ------------------------------------------------------------------ known findings (genuine, see report)
 def _kf_toplevel(doc):
-    """the decoded document is not an object and dict.update() cannot swallow it (anything but an iterable
-    of 2-item sequences with hashable first items): Sidecar.load_sidecar_files raises TypeError/ValueError"""
-    if isinstance(doc, dict):
-        return False
-    if doc is None or isinstance(doc, (bool, int)):
-        return True
-    for item in doc:                       # str or list
-        if not isinstance(item, (str, list)) or len(item) != 2:
-            return True
-        if isinstance(item[0], (list, dict)):
-            return True
-    return False
+    """C08-toplevel-not-object: the decoded document is not a JSON object.  Sidecar.load_sidecar_files does
+    `merged_dict.update(loaded_json)`: TypeError for null/true/false/number, ValueError/TypeError for strings
+    and arrays (the only non-objects it does not raise on are those dict.update() can swallow: "", [], and
+    arrays of 2-item things such as ["ab"], which are silently re-read as {"a": "b"})."""
+    return not isinstance(doc, dict)
 
 
 def _kf_entry_not_object(doc):
-    """some column entry is not an object (string, number, true/false, null, array):
-    ColumnMetadata.hed_dict calls .get on it -> AttributeError"""
+    """C08-entry-not-object: some column entry is not an object (string, number, true/false, null, array):
+    ColumnMetadata.hed_dict calls `.get` on it -> AttributeError"""
     if not isinstance(doc, dict):
         return False
     for k in doc:
@@ -123,9 +182,9 @@ def _kf_entry_not_object(doc):
 
 
 def _kf_unknown_ref_no_pound(doc):
-    """a value column whose string has no '#' (so _validate_refs skips it) contains a reference {x} to a
-    name that is neither a column of the sidecar nor "HED": SidecarValidator.validate indexes
-    refs_strings[x] -> KeyError"""
+    """C08-unknown-ref-without-pound: a value column whose string has no '#' (so _validate_refs skips it)
+    contains a reference {x}, x matching [A-Za-z0-9_-]+, to a name that is neither a column of the sidecar nor
+    "HED": SidecarValidator.validate indexes refs_strings[x] -> KeyError"""
     if not isinstance(doc, dict):
         return False
     for k in doc:
@@ -139,21 +198,87 @@ def _kf_unknown_ref_no_pound(doc):
     return False
 
 
-# ------------------------------------------------------------------ harness 1: totality on any document
-def total_doc(top: int, nk: int, name: str, e: int, k1: int, v: int, k2: int, w: int, key: str, s: str,
-              i: int) -> bool:
+def _kf_ref_not_a_name(doc):
+    """C08-ref-name-outside-pattern: an annotation string holds a well-formed reference {x} whose name x is
+    empty or has a character outside [A-Za-z0-9_-] (e.g. "{}", "{#}", "{a b}"): _validate_refs' regular
+    expression does not see it and remove_refs() deletes it before the string is checked -> no issue at all"""
+    if not isinstance(doc, dict):
+        return False
+    for k in doc:
+        for ck, text in M.strings_of(doc[k]):
+            for r in M.refs_of(text):
+                if not M.is_ref_name(r):
+                    return True
+    return False
+
+
+def _early():
+    out = []
+    if _active("C08-toplevel-not-object"):
+        out.append("top")
+    if _active("C08-entry-not-object"):
+        out.append("entry")
+    return out
+
+
+def _excluded(doc):
+    """`R.known(id, predicate(doc))` for each finding; predicates only evaluated while the id is listed"""
+    if _active("C08-toplevel-not-object") and _kf_toplevel(doc):
+        return True
+    if _active("C08-entry-not-object") and _kf_entry_not_object(doc):
+        return True
+    if _active("C08-unknown-ref-without-pound") and _kf_unknown_ref_no_pound(doc):
+        return True
+    if _active("C08-ref-name-outside-pattern") and _kf_ref_not_a_name(doc):
+        return True
+    return False
+
+
+def _admissible(top, name_hed, name, e, k1_hed, v, k2_na, w, key, s, i):
+    d, ok = _doc(top, name_hed, name, e, k1_hed, v, k2_na, w, key, s, i, _early())
+    if not ok:
+        return False
+    return not _excluded(d)
+
+
+def _oracle_structure(doc, issues):
+    """structure stage only (validate_structure looks at types and keys, never inside the strings): no
+    structure code unless a structure rule is broken; exactly one structure rule broken -> its code"""
+    if M.no_claim_structure(doc):
+        return True
+    sf = M.structure_faults(doc)
+    if sf == []:
+        return not M.any_in([i["code"] for i in issues], M.STRUCTURE_CODES)
+    codes = M.error_codes(issues)
+    if len(sf) == 1:
+        return M.any_in(codes, M.CODES[sf[0]])
+    return len(codes) > 0
+
+
+def _oracle_full(doc, issues):
+    """the property's second sentence on the result of the whole validation"""
+    if M.no_claim_structure(doc):
+        return True
+    codes = M.error_codes(issues)
+    sf = M.structure_faults(doc)
+    if sf == [] and M.any_in([i["code"] for i in issues], M.STRUCTURE_CODES):
+        return False                      # a structure code although every structure rule is obeyed
+    faults = sf + M.pound_faults(doc) + M.ref_faults(doc)
+    if len(faults) == 1:
+        return M.any_in(codes, M.CODES[faults[0]])       # exactly one rule broken: that rule's code
+    if len(faults) > 1:
+        return len(codes) > 0                            # several rules broken: at least not accepted
+    return True
+
+
+# ------------------------------------------------------------------ 1: totality (+ rule codes) on any document
+def total_doc(top: int, name_hed: bool, name: str, e: int, k1_hed: bool, v: int, k2_na: bool, w: int, key: str,
+              s: str, i: int) -> bool:
     """
-    pre: _sel_ok(top, e, v, w) and 0 <= nk <= 1 and 0 <= k1 <= 1 and 0 <= k2 <= 1 and -1 <= i <= 1
-    pre: _cell(top, e, v)
-    pre: 1 <= len(name) <= R.M(1) and R.over(name, "ab")
-    pre: len(key) <= 1 and R.over(key, "ab")
-    pre: len(s) <= R.N(2) and R.over(s, "{}a#")
-    pre: not _known("C08-toplevel-not-object", _kf_toplevel(_doc(top, nk, name, e, k1, v, k2, w, key, s, i)))
-    pre: not _known("C08-entry-not-object", _kf_entry_not_object(_doc(top, nk, name, e, k1, v, k2, w, key, s, i)))
-    pre: not _known("C08-unknown-ref-without-pound", _kf_unknown_ref_no_pound(_doc(top, nk, name, e, k1, v, k2, w, key, s, i)))
+    pre: _admissible(top, name_hed, name, e, k1_hed, v, k2_na, w, key, s, i)
     post: _
     """
-    doc = _doc(top, nk, name, e, k1, v, k2, w, key, s, i)
+    doc, _ = _doc(top, name_hed, name, e, k1_hed, v, k2_na, w, key, s, i)
     sc = sidecar_stub.load(doc)
     issues = sc.validate(MINI)
     if not isinstance(issues, list):
@@ -161,26 +286,324 @@ def total_doc(top: int, nk: int, name: str, e: int, k1: int, v: int, k2: int, w:
     for issue in issues:
         if not isinstance(issue, dict) or "code" not in issue or "severity" not in issue:
             return False
+    if isinstance(doc, dict):
+        return _oracle_full(doc, issues)
     return True
 
 
-_T_TOTAL = ["hed.models.sidecar.Sidecar.__init__", "hed.models.sidecar.Sidecar.load_sidecar_files",
-            "hed.models.sidecar.Sidecar.validate", "hed.models.sidecar.Sidecar.column_data",
-            "hed.models.sidecar.Sidecar.all_hed_columns", "hed.models.sidecar.Sidecar.__iter__",
-            "hed.validator.sidecar_validator.SidecarValidator.validate",
-            "hed.validator.sidecar_validator.SidecarValidator.validate_structure",
-            "hed.validator.sidecar_validator.SidecarValidator._validate_column_structure",
-            "hed.validator.sidecar_validator.SidecarValidator._validate_categorical_column",
-            "hed.validator.sidecar_validator.SidecarValidator._validate_refs",
-            "hed.validator.sidecar_validator.SidecarValidator._check_for_key",
-            "hed.models.column_metadata.ColumnMetadata._detect_column_type",
-            "hed.models.column_metadata.ColumnMetadata.hed_dict",
-            "hed.models.column_metadata.ColumnMetadata.source_dict",
-            "hed.models.column_metadata.ColumnMetadata.get_hed_strings"]
+# ------------------------------------------------------------------ 2: structure stage, strings fully symbolic
+def structure_rules(top: int, name_hed: bool, name: str, e: int, k1_hed: bool, v: int, k2_na: bool, w: int,
+                    key: str, s: str, i: int) -> bool:
+    """
+    pre: top == 8 or top == 9
+    pre: _doc(top, name_hed, name, e, k1_hed, v, k2_na, w, key, s, i)[1]
+    post: _
+    """
+    doc, _ = _doc(top, name_hed, name, e, k1_hed, v, k2_na, w, key, s, i)
+    sc = sidecar_stub.load(doc)
+    issues = _SV.validate_structure(sc, ErrorHandler())
+    if not isinstance(issues, list):
+        return False
+    return _oracle_structure(doc, issues)
+
+
+# ------------------------------------------------------------------ 3: column kind detection
+_KIND = {"ignore": ColumnType.Ignore, "value": ColumnType.Value, "categorical": ColumnType.Categorical,
+         "badtype": None}
+
+
+def column_kind(e: int, k1_hed: bool, v: int, k2_na: bool, w: int, key: str, s: str, i: int) -> bool:
+    """
+    pre: _doc(8, False, "a", e, k1_hed, v, k2_na, w, key, s, i)[1]
+    post: _
+    """
+    doc, _ = _doc(8, False, "a", e, k1_hed, v, k2_na, w, key, s, i)
+    entry = doc["a"]
+    k = M.kind(entry)
+    loose = ColumnMetadata._detect_column_type(entry, basic_validation=False)
+    if loose != _KIND[k]:
+        return False
+    strict = ColumnMetadata._detect_column_type(entry, basic_validation=True)
+    want = _KIND[k]
+    if k == "value" and M.count_char(entry["HED"], "#") == 0:
+        want = None          # a value column needs a '#'
+    if k == "categorical":
+        for ck in entry["HED"]:
+            if not isinstance(entry["HED"][ck], str):
+                want = None  # string-valued maps only
+    if strict != want:
+        return False
+    n, err = ColumnMetadata.expected_pound_sign_count(loose)
+    if k == "value" and n != 1:
+        return False
+    if k != "value" and n != 0:
+        return False
+    if isinstance(entry, dict):
+        cm = ColumnMetadata(name="a", source=doc)
+        if cm.source_dict is not entry:
+            return False
+        hd = cm.hed_dict
+        if k == "ignore":
+            if hd != {}:
+                return False
+        elif hd is not entry["HED"]:
+            return False
+    return True
+
+
+# ------------------------------------------------------------------ 4: reference rules on two columns
+def _col(kind, text, pound):
+    """column 'a': 0 value, 1 one category, 2 two categories (second one plain)"""
+    t = text + "#" if pound else text
+    if kind == 0:
+        return {"HED": t}
+    if kind == 1:
+        return {"HED": {"x": t}}
+    return {"HED": {"x": t, "y": "a"}}
+
+
+def _col_b(kind, r):
+    """column 'b': 0 absent, 1 {} (no HED), 2 value "a#", 3 value "{r}#", 4 category "a", 5 category "{r}" """
+    if kind == 1:
+        return {}
+    if kind == 2:
+        return {"HED": "a#"}
+    if kind == 3:
+        return {"HED": "{" + r + "}#"}
+    if kind == 4:
+        return {"HED": {"x": "a"}}
+    return {"HED": {"x": "{" + r + "}"}}
+
+
+def _two(ka, s, pound, kb, r):
+    doc = {"a": _col(ka, s, pound)}
+    if kb != 0:
+        doc["b"] = _col_b(kb, r)
+    return doc
+
+
+def _ref_pre(ka, s, pound, kb, r):
+    if not (0 <= ka <= 2 and 0 <= kb <= 5):
+        return False
+    t = R.env_int("VP_KA")
+    if t is not None and ka != t:
+        return False
+    t = R.env_int("VP_KB")
+    if t is not None and kb != t:
+        return False
+    if not (len(s) <= R.N(3) and R.scell(s, "{}ab") and R.over(s, os.environ.get("VP_SALPHA", "{}ab"))):
+        return False
+    if kb == 3 or kb == 5:
+        if not (len(r) == 1 and R.over(r, "ab")):
+            return False
+    doc = _two(ka, s, pound, kb, r if (kb == 3 or kb == 5) else "a")
+    if _active("C08-ref-name-outside-pattern") and _kf_ref_not_a_name(doc):
+        return False
+    return True
+
+
+def ref_rules(ka: int, s: str, pound: bool, kb: int, r: str) -> bool:
+    """
+    pre: _ref_pre(ka, s, pound, kb, r)
+    post: _
+    """
+    doc = _two(ka, s, pound, kb, r if (kb == 3 or kb == 5) else "a")
+    sc = sidecar_stub.load(doc)
+    eh = ErrorHandler()
+    issues = _SV.validate_structure(sc, eh)
+    issues += _SV._validate_refs(sc, eh)        # what validate() returns at its early exit
+    if not isinstance(issues, list):
+        return False
+    allcodes = [i["code"] for i in issues]
+    rf = M.ref_faults(doc)
+    if rf == [] and M.BRACES_INVALID in allcodes:
+        return False                            # a reference issue although every reference rule is obeyed
+    if rf != [] and M.structure_faults(doc) == [] and M.pound_faults(doc) == []:
+        return M.BRACES_INVALID in M.error_codes(issues)
+    return True
+
+
+# ------------------------------------------------------------------ 5: brace scanner
+def braces_scan(s: str) -> bool:
+    """
+    pre: len(s) <= R.N(5)
+    pre: R.scell(s, "{}")
+    post: _
+    """
+    got = SidecarValidator._find_non_matching_braces(s)
+    if (got == []) != M.braces_ok(s):
+        return False
+    return sorted(got) == M.brace_faults(s)
+
+
+# ------------------------------------------------------------------ 6: '#' count rule
+def pound_count(s: str, kind: int) -> bool:
+    """
+    pre: len(s) <= R.N(3)
+    pre: R.scell(s, "#,()")
+    pre: R.ascii_printable(s)
+    pre: 0 <= kind <= 2
+    post: _
+    """
+    ctype = (ColumnType.Value, ColumnType.Categorical, ColumnType.HEDTags)[kind]
+    hs = HedString(s, NOSCHEMA)
+    before = str(hs)
+    issues = _SV0._validate_pound_sign_count(hs, ctype)
+    if str(hs) != before:
+        return False                              # the caller's string must not be modified
+    want = 1 if kind == 0 else 0
+    n = M.count_char(before, "#")
+    if n == want:
+        return issues == []
+    return len(issues) == 1 and issues[0]["code"] == M.PLACEHOLDER_INVALID and issues[0]["severity"] == 1
+
+
+# ------------------------------------------------------------------ registry
+_SC = "hed.models.sidecar.Sidecar."
+_SVN = "hed.validator.sidecar_validator.SidecarValidator."
+_CM = "hed.models.column_metadata.ColumnMetadata."
+_T_LOAD = [_SC + "__init__", _SC + "load_sidecar_files", _SC + "load_sidecar_file", _SC + "_load_json_file"]
+_T_STRUCT = [_SVN + "validate_structure", _SVN + "_validate_column_structure", _SVN + "_validate_categorical_column",
+             _SVN + "_check_for_key", _CM + "_detect_column_type"]
+_T_REFS = [_SVN + "_validate_refs", _SVN + "_find_non_matching_braces", _SC + "column_data", _SC + "all_hed_columns",
+           _SC + "__iter__", _CM + "hed_dict", _CM + "source_dict", _CM + "get_hed_strings"]
+_T_TOTAL = _T_LOAD + [_SC + "validate", _SVN + "validate"] + _T_STRUCT + _T_REFS + [
+    _SVN + "_validate_pound_sign_count", _CM + "expected_pound_sign_count", _CM + "_get_unvalidated_data",
+    _SC + "get_def_dict", _SC + "extract_definitions", _SC + "get_column_refs"]
+
+_STUBS = ["JSON decoder stub (vp/sidecar_stub.py): json.load returns the decoded document carried by the fake file; "
+          "everything from Sidecar.__init__ on is /repo code",
+          "vp/chx_hash.py: CrossHair's interception of builtin hash() without its short-circuit fork"]
+_MINI = "mini schema (vp/mini.py) stands for the schema"
+_REAL = ("strings that reach pandas (ColumnMetadata.get_hed_strings builds a pd.Series) and dict keys are realised: "
+         "those arguments are enumerated by the solver over the stated alphabet, not kept symbolic")
+
+
+def _total_cells(n_val, kmax):
+    """disjoint cover of the documents of total_doc; every cell keeps at least one document outside every
+    known-finding class (so it is not vacuous while exclusions are active)."""
+    K = "0123456789"[:kmax + 1]
+    cont = "".join(c for c in "689" if c in K)
+    cells = [
+        # not an object, the empty object, and objects whose single entry is not an object or is {}
+        _kinds(VP_KTOP="01234567"),
+        _kinds(VP_KTOP="8", VP_KE="01234567"),
+        # {name: {k: V}}: V scalar / empty container
+        _kinds(VP_KTOP="8", VP_KE="8", VP_KV="012357"),
+        # V = [W]
+        _kinds(VP_KTOP="8", VP_KE="8", VP_KV="6"),
+    ]
+    # V = string (value column when k == "HED"): by length and first character, up to n_val characters
+    for c in R.str_cells(n_val, split1_from=3, nclass=5):
+        cells.append(dict(_kinds(VP_KTOP="8", VP_KE="8", VP_KV="4"), VP_N=n_val, **c))
+    # V = {k2: W} (categorical column when k == "HED"); W scalar-ish / string / container of string
+    for kv in [c for c in "89" if c in K]:
+        cells.append(_kinds(VP_KTOP="8", VP_KE="8", VP_KV=kv, VP_KW="012357"))
+        for c in R.str_cells(2, nclass=5):
+            cells.append(dict(_kinds(VP_KTOP="8", VP_KE="8", VP_KV=kv, VP_KW="4"), **c))
+        cells.append(_kinds(VP_KTOP="8", VP_KE="8", VP_KV=kv, VP_KW=cont))
+    if kmax >= 9:
+        # two-key entries {k: V, "z": V} and two-column documents {name: E, "z": E}
+        cells.append(_kinds(VP_KTOP="8", VP_KE="9", VP_KV="01235679"))
+        for c in R.str_cells(2, nclass=5):
+            cells.append(dict(_kinds(VP_KTOP="8", VP_KE="9", VP_KV="4"), **c))
+        cells.append(_kinds(VP_KTOP="8", VP_KE="9", VP_KV="8", VP_KW="012357" + cont))
+        for c in R.str_cells(2, nclass=5):
+            cells.append(dict(_kinds(VP_KTOP="8", VP_KE="9", VP_KV="8", VP_KW="4"), **c))
+        cells.append(_kinds(VP_KTOP="9", VP_KE="01234567"))
+        cells.append(_kinds(VP_KTOP="9", VP_KE="89", VP_KV="01235679"))
+        for c in R.str_cells(2, nclass=5):
+            cells.append(dict(_kinds(VP_KTOP="9", VP_KE="89", VP_KV="4"), **c))
+        cells.append(_kinds(VP_KTOP="9", VP_KE="89", VP_KV="8", VP_KW="012357" + cont))
+        for c in R.str_cells(2, nclass=5):
+            cells.append(dict(_kinds(VP_KTOP="9", VP_KE="89", VP_KV="8", VP_KW="4"), **c))
+    return cells
+
+
+def _struct_cells(two_columns):
+    cells = []
+    for top in (["8", "9"] if two_columns else ["8"]):
+        cells.append(_kinds(VP_KTOP=top, VP_KE="01234567"))
+        for e in "89":
+            cells.append(_kinds(VP_KTOP=top, VP_KE=e, VP_KV="01234567"))
+            for v in "89":
+                cells.append(_kinds(VP_KTOP=top, VP_KE=e, VP_KV=v, VP_KW="0123457"))
+                cells.append(_kinds(VP_KTOP=top, VP_KE=e, VP_KV=v, VP_KW="689"))
+    return cells
+
 
 HARNESSES = [
     R.H("total_doc", _T_TOTAL,
-        quick=R.tier(cells=_doc_cells(), env={"VP_N": 2, "VP_M": 1}, timeout=150,
-                     bound="JSON documents to depth 3"),
-        what="", oracle="none (totality)"),
+        quick=R.tier(cells=_total_cells(3, 8), env={"VP_N": 2, "VP_M": 1}, timeout=170,
+                     bound="every JSON document to depth 3 with containers of <= 1 item: strings <= 2 chars over "
+                           "'{}a#' (<= 3 chars for the HED string of a value column), numbers -1..1, keys in "
+                           "{HED, n/a, '', a, b}, column name in {HED, a, b}"),
+        thorough=R.tier(cells=_total_cells(3, 9), env={"VP_N": 2, "VP_M": 1}, timeout=1100, path_timeout=60,
+                        bound="as quick plus two-key objects {k: x, 'z': x} at the entry and category level and "
+                              "two-column documents {name: E, 'z': E}"),
+        what="Sidecar(<decoded document>).validate(schema) returns a list of issue dictionaries for every "
+             "document (any exception is a counterexample); the issues contain a structure code only if a "
+             "structure rule is broken; a document breaking exactly one rule (type / HED or n/a key / '#' count / "
+             "reference) carries that rule's code with error severity; one breaking several is not accepted",
+        oracle="models/sidecar_ref.py (rule classes from the property text, codes per class)",
+        stubs=_STUBS + [_MINI, _REAL],
+        outside="validity of the annotation strings themselves (C01); documents deeper than 3 or strings longer "
+                "than the bound; a top-level array is explored to depth 2 only"),
+    R.H("structure_rules", _T_LOAD + _T_STRUCT,
+        quick=R.tier(cells=_struct_cells(False), env={"VP_N": 3, "VP_M": 1, "VP_SALPHA": "any", "VP_KALPHA": "a"},
+                     timeout=170,
+                     bound="every one-column object to depth 3 (two-key objects included), strings: any "
+                           "Unicode text <= 3 chars, keys in {HED, n/a, '', a, z, q}, column name in {HED, a}"),
+        thorough=R.tier(cells=_struct_cells(True), env={"VP_N": 5, "VP_M": 2, "VP_SALPHA": "any"}, timeout=1100,
+                        bound="as quick plus two-column objects {name: E, 'z': E}, strings <= 5 chars, keys and "
+                              "column names over 'ab' (names <= 2 chars)"),
+        what="validate_structure never raises and reports: no structure code when every structure rule holds; "
+             "the rule's code (error severity) when exactly one structure rule is broken",
+        oracle="models/sidecar_ref.py structure_faults / CODES",
+        stubs=_STUBS[:1] + ["keys are realised (solver-enumerated over their alphabet); strings stay symbolic"],
+        outside="the '#' and reference rules (other harnesses)"),
+    R.H("column_kind", [_CM + "_detect_column_type", _CM + "expected_pound_sign_count", _CM + "hed_dict",
+                        _CM + "source_dict", _CM + "__init__"],
+        quick=R.tier(cells=[_kinds(VP_KE="01234567"), _kinds(VP_KE="8"), _kinds(VP_KE="9")],
+                     env={"VP_N": 3, "VP_SALPHA": "any", "VP_KALPHA": "a"}, timeout=170,
+                     bound="every entry value to depth 2 below it, strings: any Unicode text <= 3 chars"),
+        thorough=R.tier(cells=[_kinds(VP_KE="01234567"), _kinds(VP_KE="8"), _kinds(VP_KE="9")],
+                        env={"VP_N": 5, "VP_SALPHA": "any"}, timeout=1100, bound="as quick, strings <= 5 chars"),
+        what="_detect_column_type agrees with the reference kind for every entry type (never raises), with and "
+             "without basic validation; expected '#' count is 1 for value columns else 0; hed_dict/source_dict "
+             "return the entry's own objects",
+        oracle="models/sidecar_ref.py kind()", stubs=[], outside="non-object entries in hed_dict (known finding)"),
+    R.H("ref_rules", _T_LOAD + _T_REFS + [_SVN + "validate_structure"],
+        quick=R.tier(cells=R.product_cells(R.int_cells("VP_KA", 0, 2), R.str_cells(3, nclass=5)),
+                     env={"VP_N": 3}, timeout=170,
+                     bound="column a = value / 1 category / 2 categories with text s (<= 3 chars over '{}ab', "
+                           "optionally followed by '#'), column b in {absent, {}, value 'a#', value '{r}#', "
+                           "category 'a', category '{r}'} with r in {a, b}"),
+        thorough=R.tier(cells=R.product_cells(R.int_cells("VP_KA", 0, 2), R.int_cells("VP_KB", 0, 5),
+                                              R.str_cells(4, split1_from=3, nclass=5)),
+                        env={"VP_N": 4, "VP_SALPHA": "{}ab#"}, timeout=1100,
+                        bound="as quick with s <= 4 chars over '{}ab#'"),
+        what="validate_structure + _validate_refs (validate()'s early-exit result) never raise; no "
+             "SIDECAR_BRACES_INVALID when every reference rule holds; SIDECAR_BRACES_INVALID with error severity "
+             "when a reference rule (balance/nesting, unknown column, self reference, nested reference) is the "
+             "only kind of rule broken",
+        oracle="models/sidecar_ref.py ref_faults", stubs=_STUBS + [_MINI, _REAL],
+        outside="references whose name is empty or outside [A-Za-z0-9_-] while that finding is listed"),
+    R.H("braces_scan", [_SVN + "_find_non_matching_braces"],
+        quick=R.tier(cells=R.str_cells(5, split1_from=4, nclass=3), env={"VP_N": 5}, timeout=170,
+                     bound="every Unicode string s with len(s) <= 5"),
+        thorough=R.tier(cells=R.str_cells(7, split1_from=4, split2_from=6, nclass=3), env={"VP_N": 7},
+                        timeout=1100, bound="every Unicode string s with len(s) <= 7"),
+        what="the scanner returns [] iff braces are balanced and unnested, and otherwise exactly the offending "
+             "positions", oracle="models/sidecar_ref.py braces_ok / brace_faults (stated per position)"),
+    R.H("pound_count", [_SVN + "_validate_pound_sign_count", _CM + "expected_pound_sign_count"],
+        quick=R.tier(cells=R.str_cells(3, split1_from=3, nclass=5), env={"VP_N": 3}, timeout=170,
+                     bound="every printable-ASCII string s with len(s) <= 3, column type in {value, categorical, "
+                           "HED tags}"),
+        thorough=R.tier(cells=R.str_cells(5, split1_from=3, split2_from=4, nclass=5), env={"VP_N": 5},
+                        timeout=1100, bound="as quick with len(s) <= 5"),
+        what="PLACEHOLDER_INVALID (error) iff the number of '#' in the printed string differs from 1 (value) / 0 "
+             "(categorical, HED tags); the caller's string is left unchanged",
+        oracle="count of '#'", stubs=["NoSchema stub: tags are not looked up", "chx: ASCII-exact casefold model (pre: printable ASCII)"],
+        outside="strings containing Definition / Def-expand groups (need >= 10 characters)"),
 ]
